@@ -80,10 +80,13 @@ def run_shard(ctx, idx, shard, timeout):
     with open(spath, "w") as f:
         json.dump(shard, f)
     cmd = [ctx.interps[v], "-X", "faulthandler", os.path.join(HARNESS, "worker.py"), ctx.prop, spath, opath]
+    env = ctx.env()
+    # string hashing is part of the configuration space: shards run under different (deterministic) hash seeds
+    env["PYTHONHASHSEED"] = str((ctx.seed + idx) % 7)
     t = time.time()
     status = "ok"
     try:
-        p = subprocess.run(cmd, env=ctx.env(), cwd=ctx.tmp, stdout=subprocess.PIPE, stderr=subprocess.PIPE,
+        p = subprocess.run(cmd, env=env, cwd=ctx.tmp, stdout=subprocess.PIPE, stderr=subprocess.PIPE,
                            timeout=timeout)
         if p.returncode != 0:
             status = "exit%d" % p.returncode
